@@ -2,6 +2,7 @@ import LiteFSVerif.Driver.Util
 import LiteFSVerif.Driver.RWMutexSpecD
 import LiteFSVerif.Driver.CodecSpecD
 import LiteFSVerif.Driver.EngineSpecD
+import LiteFSVerif.Driver.LockSpecD
 
 /-! `specd`: runs only the independent specifications (never imports Gen/ or Model/),
     so it still builds when the regenerated definitions no longer do. -/
@@ -13,6 +14,7 @@ def main (args : List String) : IO UInt32 := do
   match args with
   | ["rwmutex-spec"] => loop stdin stdout RWMutexSpecD.stepSpec []; return 0
   | ["engine-spec"] => loop stdin stdout EngineSpec.step {}; return 0
+  | ["locktable-spec"] => loop stdin stdout LockSpec.step {}; return 0
   | ["crash-spec"] => loop stdin stdout EngineSpec.step {}; return 0
   | ["import-spec"] => loop stdin stdout EngineSpec.step {}; return 0
   | ["replica-spec"] => loop stdin stdout EngineSpec.step {}; return 0
